@@ -36,6 +36,16 @@ def _case(draw, worlds):
             # number of layers) are in eval mode; every factor is still all-reduced exactly once per factor-update step
             'eval_modules': draw(st.sampled_from([None, None, None, [0], [1], [0, 2]]))}
     case.update(draw(placement(W, method, prediv)))
+    if draw(st.integers(0, 3)) == 0:
+        # a model with layers of different floating-point types (factor_dtype None: each layer's factors take its own dtype):
+        # the last supported layer and everything after it run in float64
+        layers = list(case['spec']['layers'])
+        idx = max(i for i, L in enumerate(layers) if L['t'] in ('linear', 'conv'))
+        if idx > 0:
+            layers = layers[:idx] + [{'t': 'cast', 'dtype': 'float64'}] + [dict(L, dtype='float64') for L in layers[idx:]]
+            case['spec'] = dict(case['spec'], layers=layers)
+            case['factor_dtype'] = None
+            case['mixed_dtypes'] = True
     if method == 'inverse' and case['factor_dtype'] == 'bfloat16':
         case['factor_dtype'] = 'float64'      # bfloat16 factors + inverse method can be exactly singular (numerical domain of C01)
     return case
@@ -62,7 +72,7 @@ class C13(Prop):
     examples = {'quick': 150, 'thorough': 500}
     shards = {'quick': 4, 'thorough': 16}
     shrink_budget_s = {'quick': 30.0, 'thorough': 180.0}
-    required_labels = {'quick': ['nontrivial=True', 'strategy=HYBRID', 'strategy=MEM', 'strategy=COMM', 'symmetry=True', 'has_load=True', 'changing_interval=True', 'eval_mode_layers=True'],
+    required_labels = {'quick': ['nontrivial=True', 'strategy=HYBRID', 'strategy=MEM', 'strategy=COMM', 'symmetry=True', 'has_load=True', 'changing_interval=True', 'eval_mode_layers=True', 'mixed_dtypes=True'],
                        'thorough': ['nontrivial=True', 'strategy=HYBRID', 'strategy=MEM', 'strategy=COMM', 'symmetry=True', 'bucketed=True']}
 
     def strategy(self, tier):
@@ -98,7 +108,8 @@ class C13(Prop):
         labels = {'W': W, 'strategy': strat, 'method': case['method'], 'prediv': case['prediv'], 'symmetry': case['symmetry'],
                   'bucketed': case['cap'] > 0, 'in_hook': case['in_hook'], 'steps': case['steps'], 'has_load': load_at is not None,
                   'changing_interval': isinstance(fus_v, dict) or isinstance(ius_v, dict),
-                  'eval_mode_layers': bool(case.get('eval_modules')) and not case['in_hook'] and nsteps >= 2}
+                  'eval_mode_layers': bool(case.get('eval_modules')) and not case['in_hook'] and nsteps >= 2,
+                  'mixed_dtypes': bool(case.get('mixed_dtypes'))}
         res = kaisa.run_sim(case, program, case['schedule'], case['flip'], observe=('assignment', 'held'))
         if res.timed_out:
             raise RuntimeError('simulation timed out (harness)')
